@@ -100,7 +100,7 @@ CHECKS = {
         'the same sign factor, bound to a negative literal for NCA; np.fill_diagonal(dist, inf) precedes the soft-max on every path; LMNN weights pull by reg and push by 1-reg in G, the objective and the returned 2 L G; '
         'MLKR\'s objective receives the validated (X, y) themselves; a bounded retry loop (exit by exhaustion) is refuted; '
         'LMNN examines every pair of differently labelled points exactly once (in: label == c, out: label > c) and compares each margin along its own axis. '
-        'NCA and MLKR: value and gradient equal the documented forms as identities of an entry-wise polynomial algebra (value sum(M*S) resp. sum((S y - y)^2); gradient c E^T (W + W^T, diagonal -colsum W) X with the documented pair weights W), reference forms frozen from the derivations. That the LMNN gradient is the derivative of its objective beyond the weighting, and numerical agreement, are NOT decided.'),
+        'NCA and MLKR: value and gradient equal the documented forms as identities of an entry-wise polynomial algebra (value sum(M*S) resp. sum((S y - y)^2); gradient c E^T (W + W^T, diagonal -colsum W) X with the documented pair weights W), reference forms frozen from the derivations; the soft-max is computed from shifted distances (an unshifted exp(-d) / sum is refuted); the zero-iterations clause is decided against the source of the installed scipy L-BFGS-B driver (it tests maxiter only after the first iteration, and NCA / MLKR call it unconditionally): two known findings, NCA / MLKR with max_iter=0 do not return the initialisation. That the LMNN gradient is the derivative of its objective beyond the weighting, and numerical agreement, are NOT decided.'),
   note=TB),
  'C11': dict(
   technique='static analysis: inductive sign invariant of the dual updates (index agreement modulo commutativity), who-may-write rule on the metric (rank-one updates only), option table for strict_pd',
@@ -108,7 +108,7 @@ CHECKS = {
         'lambda_i >= 0 is an inductive invariant of both projection loops; between the prior and components_from_metric the matrix is '
         'written only by rank-one updates A += outer(Av, Av*beta) (Sherman-Morrison: M^-1 - M0^-1 is a combination of v v^T); the prior '
         'is requested strictly PD and computed from the training pairs themselves; the step alpha, the rank-one coefficient beta and the '
-        'slack update of both loops equal the documented cyclic Bregman projection as exact rational functions; explicit bounds reach bounds_ through value-preserving conversions only (same numbers, same order), default bounds are the (5, 95) percentiles of the pairwise distances among the distinct points; the caller\'s prior / bounds objects are never written to. Tightness/inactivity at convergence, KKT optimality and "prior returned unchanged" are NOT decided.'),
+        'slack update of both loops equal the documented cyclic Bregman projection as exact rational functions; explicit bounds reach bounds_ through value-preserving conversions only (same numbers, same order), default bounds are the (5, 95) percentiles of the pairwise distances among the distinct points; the caller\'s prior / bounds objects are never written to; the two projection loops skip no constraint (no continue / break); bounds and an array prior are converted to float before in-place updates (this rule found and led to the repair of the integer-bounds and integer-prior defects). Tightness/inactivity at convergence, KKT optimality and "prior returned unchanged" are NOT decided.'),
   note=TB),
  'C12': dict(
   technique='static analysis: guard normalisation of the acceptance test, symbolic spectral form of the SPD floor, dependence sets of loss vs search direction (sibling agreement), FRESH rule for the weights',
@@ -117,7 +117,7 @@ CHECKS = {
         'search direction reads every input the loss reads (metric, vab, vcd, prior_inv, w_) - also for MMC\'s value/derivative pairs; '
         'the caller\'s weights are not modified; the per-constraint loss is w (sqrt(d_ab)-sqrt(d_cd))^2 and the gradient coefficients '
         'are its symbolic derivatives, the regulariser is tr(M M0^-1) - logdet M with gradient M0^-1 - M^-1; the main loop stops only '
-        'on the documented criteria; the sequences zipped in _gradient are restricted by one mask (weights aligned with their constraints); the eigenvalue floor is a fixed constant, not a hyper-parameter. Stationarity and global minimality are NOT decided.'),
+        'on the documented criteria; the sequences zipped in _gradient are restricted by one mask (weights aligned with their constraints); the eigenvalue floor is a fixed constant, not a hyper-parameter; the step search evaluates every candidate step (no break / continue), and the log-determinant is taken with slogdet (log(det) is refuted as overflowing). Stationarity and global minimality are NOT decided.'),
   note=TB),
  'C13': dict(
   technique='static analysis: path-forking dependence sets at the graphical-lasso call site (which element of the prior pair, which hyper-parameters, labels), dominance of the solver call and of the result vetting over the store of components_, exception-class resolution, exact-form rule on the vetting predicate and the empirical matrix',
@@ -144,7 +144,7 @@ CHECKS = {
         'best_w changes only under obj < best_obj together with best_obj; LDA basis rows pass through normalize; every basis option path '
         'is executable and all randomness comes from check_random_state(self.random_state); the low-rank branch is taken exactly when '
         'fewer active bases than features remain; the dual-averaging step (average gradient, proximal step with gamma, step size) equals '
-        'the documented formula as an exact rational function; the loop has no exit other than max_iter; no hyper-parameter is reassigned; the weight vector kept at a checkpoint is never overwritten in place by later iterations. '
+        'the documented formula as an exact rational function; the loop has no exit other than max_iter; no hyper-parameter is reassigned; the weight vector kept at a checkpoint is never overwritten in place by later iterations; the checkpoint objective is beta sum(w) + (1/n) sum of the positive margins as an exact rational function; dist_diff, interpreted on symbolic tokens, is d(anchor, positive) - d(anchor, negative) of the squared projections on the basis; the sub-gradient divisor is self.batch_size; basis generation from triplet differences rejects exactly n_features > n_triplets. '
         'Equality of the iterates with a reference run for a seed is NOT decided.'),
   note=TB + ' Hyper-parameter ranges of the property quantifier (gamma > 0, max_iter >= output_iter >= 1).'),
  'C16': dict(
@@ -159,7 +159,7 @@ CHECKS = {
         'drop_intermediate=False) so that no candidate threshold is dropped, admissible sets {1 - fpr >= min_rate} / {tpr >= min_rate} '
         'and objectives tpr / 1 - fpr as normalised linear forms, the arg-max inside the admissible set is mapped back through the '
         'index set; parameters are validated before any work, and the validation - interpreted over the partition {NaN, <0, 0, (0,1), 1, >1} of min_rate - rejects exactly the values outside [0, 1] including NaN; ITML/MMC/SDML.fit calibrate on the training pairs with the given '
-        'calibration_params. That the stored threshold attains the optimum on a given validation set (behaviour of the scikit-learn '
+        'calibration_params; every comparison with min_rate has the bound itself on one side (fpr <= 1 - min_rate is refuted: not exact in floating point). That the stored threshold attains the optimum on a given validation set (behaviour of the scikit-learn '
         'curve functions, floating-point ties) is NOT decided.'),
   note=TB + ' Library semantics assumed: precision_recall_curve / roc_curve return the rates at every distinct score in decreasing threshold order, the first ROC point rejecting every pair; predict accepts distance <= threshold_ (decided by C04).'),
  'C17': dict(
